@@ -157,12 +157,13 @@ def _decide(h, meta, cfg, r):
         r['detail'] = 'vacuity marker not present in the VC (harness end / call site statically unreachable)'
         return
     modes = [h['mode']]
-    cap = max(cfg['solver_cap'], h.get('cap') or 0)
+    cap = (h.get('cap') or cfg['solver_cap']) if cfg['tier'] == 'quick' else max(cfg['solver_cap'], h.get('cap') or 0)
     if h['mode'] == 'U':
         modes += ['B', 'R']
     ins, getq = engine.model_queries(vc, h['mode'])
     r['inputs'] = dict(f64=len(ins['f64']), u64=len(ins['u64']))
     final = None
+    vac_fail = None
     for mode in modes:
         r['modes_tried'].append(mode)
         it, lines, ax = engine.interpret(vc, mode, h['axioms'])
@@ -202,9 +203,13 @@ def _decide(h, meta, cfg, r):
             if v == 'unsat' and h['kind'] == 'normal' and _replay_pinned(h, work, r):
                 return
             if v != 'sat':
-                r['verdict'] = 'error' if v == 'unsat' else 'undecided'
-                r['detail'] = f'vacuity twin is {v}: the harness end (or call site) is not reachable / not decided' + (o[:300] if v == 'error' else '')
-                return
+                vac_fail = ('error' if v == 'unsat' else 'undecided',
+                            f'vacuity twin is {v}: the harness end (or call site) is not reachable / not decided' + (o[:300] if v == 'error' else ''))
+                if not (v == 'unsat' and h['kind'] == 'normal' and main):
+                    r['verdict'], r['detail'] = vac_fail
+                    return
+                # harness end unreachable: either the machinery is inconsistent or the code under test fails
+                # (panics) on every admitted input. The main query tells which: a reproduced model is a violation.
         if h['kind'] != 'mustpanic' and it.extra_obligations:
             main = [d for d, t in vc.disj if t in ('prop', 'EXACT')] + it.extra_obligations
             r['extra_obligations'] = len(it.extra_obligations)
@@ -224,6 +229,9 @@ def _decide(h, meta, cfg, r):
             r['queries'] += 1
             r['solver_s'] += s
             if v == 'unsat':
+                if vac_fail:
+                    r['verdict'], r['detail'] = vac_fail
+                    return
                 if attempts == 0:
                     r['verdict'] = 'unsat'
                     r['decided_in'] = mode
@@ -291,6 +299,8 @@ def _decide(h, meta, cfg, r):
         # next mode (U -> B -> R escalation)
     if final:
         r['verdict'], r['detail'] = final
+    if vac_fail and r['verdict'] != 'violation':
+        r['verdict'], r['detail'] = vac_fail
 
 
 def pinned_value(k, variant):
@@ -367,7 +377,7 @@ def main(argv=None):
     if not hs:
         print(f'no harnesses for {prop}')
         return 2
-    cfg = dict(seed=seed, keep=a.keep or True, models=3,
+    cfg = dict(seed=seed, keep=a.keep or True, models=3, tier=tier,
                solver_cap=int(os.environ.get('KSMT_SOLVER_CAP', 30 if tier == 'quick' else 600)),
                symex_cap=int(os.environ.get('KSMT_SYMEX_CAP', 300 if tier == 'quick' else 1800)))
     try:
